@@ -1140,6 +1140,8 @@ std::string ArithLogic::termToSMT2StringImpl(PTRef tr, bool withRefs) const {
         }
         std::string rat_str = v.get_str();
         free(tmp_str);
+        // Where both Int and Real exist a bare numeral reads as an Int: print Real constants as decimals there
+        bool const asDecimal = hasIntegers() and hasReals() and isRealConst(getPterm(tr).symb());
         bool is_div = false;
         unsigned i = 0;
         unsigned rat_size = rat_str.size();
@@ -1163,7 +1165,9 @@ std::string ArithLogic::termToSMT2StringImpl(PTRef tr, bool withRefs) const {
             den[j] = '\0';
             char * tmp;
             std::stringstream str;
-            int written = is_neg ? asprintf(&tmp, "(/ (- %s) %s)", nom, den) : asprintf(&tmp, "(/ %s %s)", nom, den);
+            char const * dec = asDecimal ? ".0" : "";
+            int written = is_neg ? asprintf(&tmp, "(/ (- %s%s) %s%s)", nom, dec, den, dec)
+                                 : asprintf(&tmp, "(/ %s%s %s%s)", nom, dec, den, dec);
             assert(written >= 0);
             (void)written;
             str << tmp;
@@ -1174,10 +1178,12 @@ std::string ArithLogic::termToSMT2StringImpl(PTRef tr, bool withRefs) const {
             return str.str();
         } else if (is_neg) {
             std::stringstream str;
+            if (asDecimal) { rat_str += ".0"; }
             str << "(- " << rat_str << ')';
             if (withRefs) { str << " <" << tr.x << ">"; }
             return str.str();
         } else {
+            if (asDecimal) { rat_str += ".0"; }
             return rat_str;
         }
     }
